@@ -374,7 +374,10 @@ func rcells() []rcell {
 	return append(cells, hand...)
 }
 
-type rframe struct{ fin, outer, code, path string }
+type rframe struct {
+	fin, outer, code, path string
+	mids                    []string // frames of internal/issues between the caller of FinalizeIssue and the first outside frame
+}
 
 // captureAll parses the cell with a recording global map and returns every (fin, outer) the parse resolved a message at.
 func captureAll(c rcell) (out []rframe, panicked bool) {
@@ -402,6 +405,9 @@ func captureAll(c rcell) (out []rframe, panicked bool) {
 				if !strings.Contains(f.Function, "/internal/issues.") {
 					fr.outer = fmt.Sprintf("%s:%d", relFile(f), f.Line)
 					state = 3
+				} else if loc := fmt.Sprintf("%s:%d", relFile(f), f.Line); loc != fr.fin {
+					// a helper of internal/issues that delegates to the finalising one (CreateNonOptionalError -> …WithInst)
+					fr.mids = append(fr.mids, loc)
 				}
 			}
 			if !more || state == 3 {
@@ -475,6 +481,7 @@ func winnerAt(c rcell, src byte, code, path string) string {
 func reachCells(o *hx.Out, outDir string) error {
 	type pair struct{ fin, outer string }
 	first := map[pair]bool{}
+	opsDone := map[pair]bool{}
 	var lines []string
 	npanic := 0
 	for _, c := range rcells() {
@@ -483,13 +490,33 @@ func reachCells(o *hx.Out, outDir string) error {
 			npanic++
 			continue
 		}
+		// an issue (code, path) that several calls finalised during this parse cannot be attributed to one of them
+		// (Struct.Parse(nil) builds a struct type error and the engine's nil error): such a cell only counts for coverage
+		sameIssue := map[string]map[pair]bool{}
+		for _, fr := range frs {
+			k := fr.code + "@" + fr.path
+			if sameIssue[k] == nil {
+				sameIssue[k] = map[pair]bool{}
+			}
+			sameIssue[k][pair{fr.fin, fr.outer}] = true
+		}
 		for _, fr := range frs {
 			p := pair{fr.fin, fr.outer}
-			if first[p] {
+			if !first[p] {
+				first[p] = true
+				lines = append(lines, fmt.Sprintf("%s\t%s\t%s\t%s", c.id, fr.fin, fr.outer, fr.code))
+				for _, m := range fr.mids {
+					lines = append(lines, fmt.Sprintf("%s\t%s\t%s\t%s", c.id, m, fr.outer, fr.code))
+				}
+			}
+			if opsDone[p] {
 				continue
 			}
-			first[p] = true
-			lines = append(lines, fmt.Sprintf("%s\t%s\t%s\t%s", c.id, fr.fin, fr.outer, fr.code))
+			if len(sameIssue[fr.code+"@"+fr.path]) > 1 {
+				o.Count("reach:ambiguous-issue")
+				continue
+			}
+			opsDone[p] = true
 			// top-level issue of the error only (path as captured): configure each source alone
 			appl := "pgl"
 			if c.nop {
